@@ -320,6 +320,9 @@ def report_problem(run: Run, mode, name, files, flags, problem, confirm=True):
 def replay(run: Run, case: dict, origin: str | None = None) -> bool:
     before = len(run.violations)
     files, flags = case["files"], case.get("flags", [])
+    if origin and origin.startswith("known-") and run.tier == "quick" and case.get("mode", "batch") != "batch":
+        run.label("daemon_witness_replays_left_to_thorough_tier")  # each costs a daemon start; the batch witnesses are replayed
+        return True
     if case.get("mode", "batch") == "batch":
         r = eval_batch((case.get("name", "replay"), files, flags))
         run.count()
@@ -342,7 +345,7 @@ def run(run: Run) -> None:
     )
     run.assumptions = ["a case is a hang only if it exceeds 120 s in-process AND 600 s in a fresh process"]
     rnd = random.Random(run.seed)
-    work = make_cases(run, 1100 if q else 60000, 150 if q else 6000, rnd)
+    work = make_cases(run, 900 if q else 60000, 150 if q else 6000, rnd)
     k = 0
     for (name, files, fl), r in zip(work, pmap(eval_batch, work, recycle=150)):
         run.count()
